@@ -91,6 +91,13 @@ func mapContract(n datamodel.Node, alphabet []string, viol func(sig, detail stri
 		return false
 	}
 	keys := append([]string{}, alphabet...)
+	// the field names of the wrapped dag-pb node are not entries: a view that
+	// falls through to its substrate on a miss would find them
+	for _, k := range []string{"Links", "Data", "Hash", "Name", "Tsize"} {
+		if !contains(keys, k) {
+			keys = append(keys, k)
+		}
+	}
 	for k := range yielded {
 		if !contains(keys, k) {
 			keys = append(keys, k)
@@ -241,13 +248,20 @@ func runC15(r *core.Run) {
 	type sc struct {
 		mask, fanout int
 		ref          bool
+		mixed        []int // per-level fanouts of a harness-written HAMT
 	}
 	var scs []sc
 	for mask := 1; mask < 1<<uint(len(u)); mask++ {
 		for _, f := range []int{8, 16, 256, 1024} {
-			scs = append(scs, sc{mask, f, false})
+			scs = append(scs, sc{mask, f, false, nil})
 			if mask%3 == 0 {
-				scs = append(scs, sc{mask, f, true})
+				scs = append(scs, sc{mask, f, true, nil})
+			}
+		}
+		// well-formed HAMTs whose levels differ in fanout (same prefix width)
+		if mask%2 == 1 {
+			for _, mf := range [][]int{{8, 16}, {32, 256}, {256, 64}, {512, 1024, 512}} {
+				scs = append(scs, sc{mask, mf[0], false, mf})
 			}
 		}
 	}
@@ -258,13 +272,18 @@ func runC15(r *core.Run) {
 		es := gen.Leaves(s, names)
 		var root cid.Cid
 		var err error
-		if c.ref {
+		if c.mixed != nil {
+			root, _, err = gen.MixedHamt(s, es, c.mixed)
+		} else if c.ref {
 			root, _, err = gen.RefShard(s, c.fanout, es)
 		} else {
 			root, _, err = gen.OursSharded(s, c.fanout, es)
 		}
 		r.Evaluations.Add(1)
 		desc := fmt.Sprintf("shard F=%d ref=%v %q", c.fanout, c.ref, trimNames(names))
+		if c.mixed != nil {
+			desc = fmt.Sprintf("shard level-fanouts=%v %q", c.mixed, trimNames(names))
+		}
 		r.Distinct(desc)
 		if err != nil {
 			r.Violate("build-error shard", desc+": "+err.Error(), nil)
